@@ -1,6 +1,7 @@
 import HapVerif.Model.C05
 import HapVerif.Drv.Common
 import HapVerif.Drv.C05Faults
+import HapVerif.Drv.C05Align
 /-!
 Driver for C05.  Case line:
 
@@ -14,6 +15,8 @@ ops: `aX.C.S` AcquireBackend(name X) + fill content (cfg C, S empty slots) when 
 joined by `,`, `-` = empty.
 
 mode `fx` (histories with failed updates): see Drv/C05Faults.lean.
+mode `al` (histories with the dynamic updater: scale-ups applied without reload, `alignSlots` growing
+bystander backends on a reload): see Drv/C05Align.lean.
 -/
 namespace HapVerif.C05
 open HapVerif.Drv
@@ -255,6 +258,7 @@ def handle (args : List String) (impl : String) : Verdict :=
   match args with
   | ["maps", _n, p, ops] => handleMaps p ops impl
   | ["fx", q, n, shards, ops] => C05F.handleFx q n shards ops impl
+  | ["al", n, shards, dyn, ops] => C05A.handleAl n shards dyn ops impl
   | [mode, n, shards, ops] =>
     match n.toNat?, parseList parseNat? shards "." with
     | some n, some shl =>
